@@ -278,6 +278,9 @@ def handler_sets(tier: str) -> list[tuple[str, list[dict]]]:
         sets.append((f'daemon[{reaction},{backoff},{timeout}]',
                      [dict(id='dm', on='daemon', reaction=reaction, exit_delay=0.0, cancellation_backoff=backoff, cancellation_timeout=timeout, **filt)]))
     sets.append(('daemon[cancel,slow-exit]', [dict(id='dm', on='daemon', reaction='cancel', exit_delay=1.0, cancellation_backoff=None, cancellation_timeout=3.0, **filt)]))
+    # daemons that take their time to leave (2.5 s after the flag / 1.5 s after the cancellation): a pause or a label switched back shorter than that
+    sets.append(('daemon[obeys,slow-exit]', [dict(id='dm', on='daemon', reaction='obeys', exit_delay=2.5, **filt)]))
+    sets.append(('daemon[cancel,2.0,6.0,slow-exit]', [dict(id='dm', on='daemon', reaction='cancel', exit_delay=1.5, cancellation_backoff=2.0, cancellation_timeout=6.0, **filt)]))
     sets.append(('daemon[exits]', [dict(id='dm', on='daemon', reaction='exits', lifetime=2.0, **filt)]))
     sets.append(('daemon+initial-delay', [dict(id='dm', on='daemon', reaction='obeys', initial_delay=1.0, **filt)]))
     sets.append(('daemon+timer', [dict(id='dm', on='daemon', reaction='cancel', cancellation_backoff=2.0, cancellation_timeout=3.0, **filt),
